@@ -25,6 +25,10 @@ func newInvalidDecoder(typ *runtime.Type, structName, fieldName string) *invalid
 }
 
 func (d *invalidDecoder) DecodeStream(s *Stream, depth int64, p unsafe.Pointer) error {
+	if s.skipWhiteSpace() == 'n' {
+		// null is no value: it leaves a destination of any type as it is ( as in encoding/json )
+		return nullBytes(s)
+	}
 	return &errors.UnmarshalTypeError{
 		Value:  "object",
 		Type:   runtime.RType2Type(d.typ),
@@ -35,6 +39,15 @@ func (d *invalidDecoder) DecodeStream(s *Stream, depth int64, p unsafe.Pointer) 
 }
 
 func (d *invalidDecoder) Decode(ctx *RuntimeContext, cursor, depth int64, p unsafe.Pointer) (int64, error) {
+	buf := ctx.Buf
+	cursor = skipWhiteSpace(buf, cursor)
+	if buf[cursor] == 'n' {
+		// null is no value: it leaves a destination of any type as it is ( as in encoding/json )
+		if err := validateNull(buf, cursor); err != nil {
+			return 0, err
+		}
+		return cursor + 4, nil
+	}
 	return 0, &errors.UnmarshalTypeError{
 		Value:  "object",
 		Type:   runtime.RType2Type(d.typ),
